@@ -244,7 +244,10 @@ func canonVal(st *State, v Val, inputCells map[int]bool, depth int) string {
 		return types.TypeString(x.Dyn, func(p *types.Package) string { return p.Name() }) + "(" + canonVal(st, x.V, inputCells, depth+1) + ")"
 	case *Agg:
 		var parts []string
-		stt, _ := x.Typ.Underlying().(*types.Struct)
+		var stt *types.Struct
+		if x.Typ != nil {
+			stt, _ = x.Typ.Underlying().(*types.Struct)
+		}
 		for i, e := range x.Elems {
 			if stt != nil {
 				parts = append(parts, stt.Field(i).Name()+":"+canonVal(st, e, inputCells, depth+1))
@@ -337,6 +340,9 @@ func unitReplay(opts *RunOpts, w *World, q *Oblig) (out *ReplayOutcome) {
 			}
 		}
 	}()
+	if _, ok := cx.con.option("call-result"); ok {
+		return &ReplayOutcome{Note: "unit replay of a returned closure is not implemented; the obligation is syntactic on the emitted skeleton (see goal/where)"}
+	}
 	fn := w.findFunc(cx.con)
 	cz := &concretizer{model: map[string]*T{}, atoms: map[string]string{}}
 	for k, v := range q.Res.Model {
@@ -378,6 +384,13 @@ func unitReplay(opts *RunOpts, w *World, q *Oblig) (out *ReplayOutcome) {
 			predicted = append(predicted, fmt.Sprintf("GOVC-RESULT %d %s", k, canonVal(o.St, r, inputCells, 0)))
 		}
 		for _, c := range sortedCells(pre.Heap) {
+			if isEmitterType(pre.CellTypes[c]) {
+				em := o.St.Heap[c].(*Agg)
+				t, _ := o.St.Ghost[sbKey(Ref{Cell: c}.sub(structFieldIndex(em.Typ, "sb")))].(Text)
+				cs, _ := cz.text(t).concrete()
+				predicted = append(predicted, fmt.Sprintf("GOVC-CELL %d %s", c, strconv.Quote(cs)))
+				continue
+			}
 			predicted = append(predicted, fmt.Sprintf("GOVC-CELL %d %s", c, canonVal(o.St, o.St.Heap[c], inputCells, 0)))
 		}
 		switch q.Kind {
@@ -414,6 +427,10 @@ func unitReplay(opts *RunOpts, w *World, q *Oblig) (out *ReplayOutcome) {
 		fmt.Fprintf(&body, "\tc%d := new(%s)\n", c, g.typ(t))
 	}
 	for _, c := range sortedCells(pre.Heap) {
+		if isEmitterType(pre.CellTypes[c]) {
+			fmt.Fprintf(&body, "\tc%d = %sNewEmitter(80)\n\tc%d.Indent(1)\n", c, emitterQual(g, pre.CellTypes[c]), c)
+			continue
+		}
 		fmt.Fprintf(&body, "\t*c%d = %s\n", c, g.expr(pre.Heap[c], pre.CellTypes[c]))
 	}
 	fmt.Fprintf(&body, "\tcells := map[uintptr]int{")
@@ -447,6 +464,10 @@ func unitReplay(opts *RunOpts, w *World, q *Oblig) (out *ReplayOutcome) {
 		fmt.Fprintf(&body, "\tfmt.Println(\"GOVC-RESULT %d\", govcCanon(reflect.ValueOf(&r%d).Elem(), cells, 0))\n", k, k)
 	}
 	for _, c := range sortedCells(pre.Heap) {
+		if isEmitterType(pre.CellTypes[c]) {
+			fmt.Fprintf(&body, "\tfmt.Println(\"GOVC-CELL %d\", strconv.Quote(c%d.String()))\n", c, c)
+			continue
+		}
 		fmt.Fprintf(&body, "\tfmt.Println(\"GOVC-CELL %d\", govcCanon(reflect.ValueOf(c%d).Elem(), cells, 0))\n", c, c)
 	}
 	var src strings.Builder
@@ -529,4 +550,17 @@ func runOverlay(opts *RunOpts, relPkg, src, run string) (string, string) {
 	cmd.Env = repoEnv()
 	outb, _ := cmd.CombinedOutput()
 	return string(outb), "cd " + opts.Repo + " && go test -overlay <overlay> -vet=off -count=1 -timeout 60s -run ^" + run + "$ -v " + pkgArg
+}
+
+func isEmitterType(t types.Type) bool {
+	n, ok := t.(*types.Named)
+	return ok && n.Obj().Name() == "Emitter" && n.Obj().Pkg() != nil && strings.HasSuffix(n.Obj().Pkg().Path(), "pkg/codegen")
+}
+
+func emitterQual(g *goGen, t types.Type) string {
+	q := g.qual(t.(*types.Named).Obj().Pkg())
+	if q == "" {
+		return ""
+	}
+	return q + "."
 }
